@@ -67,6 +67,7 @@ type World struct {
 	dispCache       map[string]*dispatch
 	kindCache       map[kindRunKey]*kindRunResult
 	etsCache        map[string]ISet
+	roCache         *roTables // roinit.go: read-only package tables
 }
 
 func loadWorld(repo string, cfg Config) (*World, error) {
